@@ -394,14 +394,14 @@ func (fg *FunctionGenerator) AccessList(list Value, index Value) (Value, error) 
 			if i < 0 {
 				return nil, fmt.Errorf("negative list index")
 			} else {
-				size, err := l.Size(funcGen.NewEmptyStack[Value]())
+				items, err := l.ToSlice(funcGen.NewEmptyStack[Value]())
 				if err != nil {
 					return nil, err
 				}
-				if int(i) >= size {
-					return nil, fmt.Errorf("index out of bounds %d>=size(%d)", i, size)
+				if int(i) >= len(items) {
+					return nil, fmt.Errorf("index out of bounds %d>=size(%d)", i, len(items))
 				} else {
-					return l.items[i], nil
+					return items[i], nil
 				}
 			}
 		} else {
